@@ -38,7 +38,7 @@ fn main() {
             println!("out: {}", hex(&out));
         }
         "famvalid" => {
-            let ms = match av[2].as_str() { "ctrl" => wgen::families::ctrl_family(wgen::Tier::Quick), "idshift" => wgen::families::idshift_family(), "leb" => wgen::families::leb_family(wgen::Tier::Quick), _ => vec![] };
+            let ms = match av[2].as_str() { "ctrl" => wgen::families::ctrl_family(wgen::Tier::Quick), "idshift" => wgen::families::idshift_family(), "leb" => wgen::families::leb_family(wgen::Tier::Quick), "minimal" => wgen::families::minimal_family(), "names" => wgen::families::names_family(wgen::Tier::Quick), "locals" => wgen::families::locals_family(), "customs" => wgen::families::customs_family(wgen::Tier::Quick), _ => vec![] };
             let mut bad = 0;
             for m in &ms { if let Err(e) = validate214(&m.wasm, FeatureSet::DEFAULT) { bad += 1; if bad < 5 { println!("{} : {}", m.coords, e); } } }
             println!("{} members, {} invalid", ms.len(), bad);
